@@ -38,6 +38,7 @@ from a816.parse.nodes import (
     IncludeIpsNode,
     LabelNode,
     LongNode,
+    MacroArgumentNode,
     NodeError,
     NodeProtocol,
     OpcodeNode,
@@ -379,19 +380,27 @@ def generate_macro_application(
     macro_code = macro_def.block
     macro_args = macro_def.args
     macro_args_values = node.args
+    # arguments are evaluated in the scope of the call site, before the parameters are bound.
+    evaluated_args: list[int | BlockAstNode | None] = []
+    for index, _ in enumerate(macro_args):
+        value = macro_args_values[index]
+        if isinstance(value, BlockAstNode):
+            evaluated_args.append(value)
+        else:
+            try:
+                evaluated_args.append(eval_expression(value, resolver))
+            except SymbolNotDefined:
+                evaluated_args.append(None)
     resolver.append_scope()
     resolver.use_next_scope()
     code.append(ScopeNode(resolver))
     for index, arg in enumerate(macro_args):
-        value = macro_args_values[index]
-        try:
-            if isinstance(value, BlockAstNode):
-                resolver.current_scope.add_symbol(arg, value)
-            else:
-                resolver.current_scope.add_symbol(arg, eval_expression(value, resolver))
-        except SymbolNotDefined:
+        evaluated = evaluated_args[index]
+        if evaluated is not None:
+            resolver.current_scope.add_symbol(arg, evaluated)
+        else:
             # defer the resolve to the emit part.
-            code.append(SymbolNode(arg, value, resolver))
+            code.append(MacroArgumentNode(arg, macro_args_values[index], resolver))
     code += _code_gen(macro_code.body, resolver, macro_definitions)
     code.append(PopScopeNode(resolver))
     resolver.restore_scope()
